@@ -260,16 +260,9 @@ def methodArg (s : CStr) : Except Err String :=
   | none => .ok "kdf:mod"
   | some m => methodClass m
 
-/-- `StoreKeyMethod::resolve` for a NEW key (rekey); the blank raw key is refused by `rekey` itself -/
-def resolveNewKey (m : String) (p : Option String) : Except Err Unit :=
-  if m == "raw" then
-    match p with
-    | none => .error .input
-    | some k => if validRawKeys.contains k then .ok () else .error .input     -- blank: refused; else base58 / length
-  else if m == "none" then .ok ()
-  else match p with
-    | none => .error .input
-    | some _ => .ok ()
+/-- the driver's method strings as the model's classes -/
+def classOf (m : String) : MethodClass :=
+  if m == "raw" then .raw else if m == "none" then .unprotected else .kdf
 
 /-- `StoreKeyReference::resolve` + loading the profile key, for a store whose key is (m, p0) -/
 def openKey (m : String) (p0 p : Option String) : Except Err Unit :=
@@ -577,9 +570,10 @@ def evalOp (w : World) (i : Nat) (j : Json) : World × Json :=
           match w.backends[bi]? with
           | none => (w, .error .unexpected)
           | some b =>
-            -- `pass_key.as_ref()`: `PassKey::as_ref` turns an absent pass key into a present empty one
-            let p := some (((cstr j "pass").asOptStr).getD "")
-            match resolveNewKey m p with
+            -- `store.rekey(key_method, pass_key.as_ref())`: the model of the CURRENT tree (Model/Ffi.lean,
+            -- `passKeyAsRefKeepsNone` read from the source)
+            let p := passKeyAsRef (cstr j "pass").asOptStr
+            match rekeyFfi (fun k => validRawKeys.contains k) (classOf m) (cstr j "pass") with
             | .error e => (w, .error e)
             | .ok _ =>
               if b.wtxn.isSome then (w, .error .backend) else
@@ -712,6 +706,9 @@ def evalOp (w : World) (i : Nat) (j : Json) : World × Json :=
           match decodeLimit (int! j "lim") with
           | some l => (w, .ok (Json.mkObj [("keys", Json.mkObj [("count", jnat (min l.toNat es.length))])]))
           | none => (w, .ok (Json.mkObj [("keys", Json.mkObj [("count", jnat es.length), ("rows", .arr ((sortBy entryLt es).map jkey).toArray)])]))) w
+  | "current_error_null_out" =>
+    -- `askar_get_current_error(NULL)` on the CURRENT tree (`currentErrorChecksOut` read from the source)
+    (w, Json.mkObj [("crash", .bool ((getCurrentError true (w.lastErr.getD 0)).1 == .segfault))])
   | "version" => (w, jsync .success "version")
   | "key_roundtrip" =>
     let alg := ((cstr j "alg").asOptStr).getD ""
@@ -746,9 +743,14 @@ def codeNum (n : String) : Nat :=
   | "Backend" => 1 | "Busy" => 2 | "Duplicate" => 3 | "Encryption" => 4 | "Input" => 5 | "NotFound" => 6
   | "Unexpected" => 7 | "Unsupported" => 8 | "Custom" => 100 | _ => 0
 
+def codeOfName (n : String) : Code :=
+  match n with
+  | "Backend" => .backend | "Busy" => .busy | "Duplicate" => .duplicate | "Encryption" => .encryption | "Input" => .input
+  | "NotFound" => .notFound | "Unexpected" => .unexpected | "Unsupported" => .unsupported | "Custom" => .custom | _ => .success
+
 /-- `LAST_ERROR`: set by every error that goes through `set_last_error` (a `catch_err!` return or an
-    error delivered to a callback), not by the direct `return ErrorCode::Unsupported` of the order_by
-    check, taken by `askar_get_current_error`.  The harness itself reads the slot after a code 7
+    error delivered to a callback); by the order_by check only on a tree where that goes through
+    `set_last_error` (Model/Ffi.lean `orderByReject`, D33); taken by `askar_get_current_error`.  The harness itself reads the slot after a code 7
     (to look for a caught panic) and clobbers it when it has to poll after a close without callback. -/
 def trackLastErr (w : World) (op o : Json) : World :=
   let name := str! op "op"
@@ -757,10 +759,14 @@ def trackLastErr (w : World) (op o : Json) : World :=
   let cbe := match o.getObjVal? "cb" with | .ok cb => str! cb "err" | .error _ => ""
   if r == "Unexpected" || cbe == "Unexpected" then { w with lastErr := some 0 } else
   if (name == "store_close" && !bool! op "cb") || name == "key_roundtrip" then { w with lastErr := none } else
-  if name == "null_probe" then { w with lastErr := some 5 } else
-  if cbe != "" then { w with lastErr := some (codeNum cbe) } else
+  let gotKeys := match o.getObjVal? "cb" with | .ok cb => (getD? cb "keys").isSome | .error _ => false
+  if name == "null_probe" || ((name == "key_fetch" || name == "key_fetch_all") && gotKeys) then { w with lastErr := some 5 } else
+  if cbe != "" then { w with lastErr := some (setLastError (codeOfName cbe) 0).2 } else
   if r != "" && r != "Success" then
-    if (name == "fetch_all" || name == "scan_start") && r == "Unsupported" then w else { w with lastErr := some (codeNum r) }
+    -- the order_by rejection of the CURRENT tree (`orderByErrorRecorded` read from the source); a slot
+    -- the harness has clobbered stays undetermined either way
+    if (name == "fetch_all" || name == "scan_start") && r == "Unsupported" then { w with lastErr := w.lastErr.map fun s => (orderByReject s).2 }
+    else { w with lastErr := some (setLastError (codeOfName r) 0).2 }
   else w
 
 def runCase (j : Json) : Json :=
